@@ -166,23 +166,42 @@ def check_value(p, v, cfg_name, col):
             col.violation("union-fixpoint", case(), f"T={mat.root_expr}: encode(decode(b)) = {bb!r:.100} != {b1!r:.100}", bucket="fixpoint")
 
 
-def check_bytes(kind, payload: bytes, cfg_name, col):
-    T = {"bytes": bytes, "bytearray": bytearray, "memoryview": memoryview}[kind]
+BYTES_WRAPS = ["plain", "newtype", "alias", "newtype>newtype", "alias>newtype", "newtype>alias", "alias>alias", "final"]
+
+
+def _wrapped_bytes_type(B, wrap):
+    """the bytes-like class B behind a chain of wrappers (inner > outer)"""
+    import typing
+    T = B
+    if wrap == "plain":
+        return T
+    if wrap == "final":
+        return typing.Final[B]
+    for i, w in enumerate(wrap.split(">")):
+        T = typing.NewType(f"Blob{i}", T) if w == "newtype" else typing.TypeAliasType(f"Payload{i}", T)
+    return T
+
+
+def check_bytes(kind, payload: bytes, cfg_name, col, wrap="plain"):
+    B = {"bytes": bytes, "bytearray": bytearray, "memoryview": memoryview}[kind]
+    T = _wrapped_bytes_type(B, wrap)
     tl.clear_all()
     cfg = CONFIGS[cfg_name]
-    v = T(payload)
+    v = B(payload)
     col.ev()
     col.label("bytes-like:" + kind)
-    col.nt(f"{kind}{payload!r}{cfg_name}")
-    case = {"bytes_kind": kind, "payload": payload.hex(), "cfg": cfg_name}
+    col.label("bytes-like-spelling:" + wrap)
+    col.nt(f"{kind}{wrap}{payload!r}{cfg_name}")
+    case = {"bytes_kind": kind, "payload": payload.hex(), "cfg": cfg_name, "wrap": wrap}
     enc_kw = {"encoder": cfg["encoder"]} if "encoder" in cfg else {}
     dec_kw = {"decoder": cfg["decoder"]} if "decoder" in cfg else {}
     cdc = typelib.codec(T, **cfg)
     paths = {
         "Codec.encode": tl.call(cdc.encode, v),
         "typelib.encode": tl.call(typelib.encode, v, t=T, **enc_kw),
-        "typelib.encode(t=None)": tl.call(typelib.encode, v, **enc_kw),
     }
+    if wrap == "plain":
+        paths["typelib.encode(t=None)"] = tl.call(typelib.encode, v, **enc_kw)
     for name, (k, b) in paths.items():
         if k == "exc":
             col.violation("bytes-verbatim-encode", case, f"{name}({kind}({payload!r})) raised {tl.exc_name(b)}: {b}", bucket=name)
@@ -195,7 +214,7 @@ def check_bytes(kind, payload: bytes, cfg_name, col):
     for name, (k, r) in dpaths.items():
         if k == "exc":
             col.violation("bytes-verbatim-decode", case, f"{name}({kind}, {payload!r}) raised {tl.exc_name(r)}: {r}", bucket=name)
-        elif not (isinstance(r, T) and bytes(r) == payload):
+        elif not (isinstance(r, B) and bytes(r) == payload):
             col.violation("bytes-verbatim-decode", case, f"{name}({kind}, {payload!r}) = {r!r}", bucket=name)
 
 
@@ -223,11 +242,12 @@ def run_shard(shard, col):
         from harness import core
 
         def one(t):
-            kind, payload, cfg = t
-            check_bytes(kind, payload, cfg, col)
+            kind, payload, cfg, wrap = t
+            check_bytes(kind, payload, cfg, col, wrap)
 
-        payloads = st.one_of(st.binary(max_size=40), st.sampled_from([b"", b"1", b"null", b'"a"', b"[1]", b"\xff\xfe", b"\x00", "é".encode(), b'{"a": 1}']))
-        core.drive(st.tuples(st.sampled_from(["bytes", "bytearray", "memoryview"]), payloads, st.sampled_from(list(CONFIGS))),
+        payloads = st.one_of(st.binary(max_size=40), st.sampled_from([b"", b"1", b"null", b'"a"', b"[1]", b"\xff\xfe", b"\x00", "é".encode(), b'{"a": 1}', b'"quoted"', b"\xff", b"\x80abc", b"true"]))
+        core.drive(st.tuples(st.sampled_from(["bytes", "bytearray", "memoryview"]), payloads, st.sampled_from(list(CONFIGS)),
+                             st.sampled_from(["plain", "plain", *BYTES_WRAPS])),
                    one, n=shard["n"], seed=shard["seed"], col=col)
         return
     progs.drive_programs(col, seed=shard["seed"], n=shard["n"],
@@ -236,6 +256,6 @@ def run_shard(shard, col):
 
 def replay(clause, case, col):
     if "bytes_kind" in case:
-        check_bytes(case["bytes_kind"], bytes.fromhex(case["payload"]), case["cfg"], col)
+        check_bytes(case["bytes_kind"], bytes.fromhex(case["payload"]), case["cfg"], col, case.get("wrap", "plain"))
         return
     progs.replay_program(case, col, lambda p: check_value(p, p.mat.eval(case["value"]), case["cfg"], col))
